@@ -245,3 +245,14 @@ package index
 //@   may_panic
 //@   ensures[a_flush_that_reports_success_leaves_no_batch_waiting] err == nil ==> s.immutable == nil
 //@ end
+
+//@ # the same switch in the schema store (field and tag-key ids of a metric, C09): a waiting batch is never replaced, and only
+//@ # a dictionary that holds schemas becomes the waiting batch (an empty one would block every later flush, see above)
+//@ func metricSchemaStore.PrepareFlush
+//@   prop C09
+//@   requires s.mutable != nil
+//@   modifies s.immutable, s.mutable
+//@   ensures[a_batch_that_waits_for_its_flush_is_never_replaced] old(s.immutable) != nil ==> (s.immutable == old(s.immutable) && s.mutable == old(s.mutable))
+//@   ensures[a_batch_that_waits_for_a_flush_always_holds_schemas] s.immutable != nil ==> (old(s.immutable) != nil || !all(k, "uint32", !s.immutable.present[k]))
+//@   ensures[otherwise_a_dictionary_that_holds_schemas_becomes_the_waiting_batch] (old(s.immutable) == nil && !all(k, "uint32", !old(s.mutable.present)[k])) ==> (s.immutable == old(s.mutable) && s.mutable != old(s.mutable))
+//@ end
